@@ -19,6 +19,8 @@ extern "C" {
    uint64_t vp_fork(uint64_t x) { return x; }
    void vp_observe(uint64_t tag, uint64_t v) { std::printf("OBSERVE %llu %llu\n", (unsigned long long)tag, (unsigned long long)v); }
    void vp_done(void) { std::printf("DONE\n"); }
+   void vp_mark(void) { }
+   void vp_leakcheck(void) { }
 }
 
 int main(int argc, char** argv)
